@@ -466,7 +466,7 @@ def doc_specs(tier, rnd):
     from . import gendoc
     entries = gendoc.index_entries()
     thorough = tier == 'thorough'
-    ndocs = 3000 if thorough else 180
+    ndocs = 2500 if thorough else 180
     max_lids = None if thorough else 45
     specs = []
     k = 0
@@ -478,11 +478,24 @@ def doc_specs(tier, rnd):
         if rnd_i == 0:
             p_opt, max_rep = 0.0, 1            # required-only document of every map
         else:
-            p_opt = rnd.choice((0.15, 0.3, 0.5, 0.8) if thorough else (0.15, 0.3, 0.5))
+            p_opt = rnd.choice((0.15, 0.3, 0.5))
             max_rep = rnd.choice((1, 2, 3))
         copies = rnd.choice((2, 3, 4)) if rnd.random() < 0.2 else 1   # envelope loops back-to-back (see arrange)
         specs.append((m, sd, p_opt, max_rep, copies, rnd.randrange(1 << 30), max_lids))
     return specs
+
+
+def run_model_parallel(lines, nproc):
+    """common.run_model on interleaved slices in parallel driver processes (a CTX line costs documents x loop ids)"""
+    from multiprocessing.pool import ThreadPool
+    k = max(1, min(nproc, len(lines) // 4))
+    parts = [lines[i::k] for i in range(k)]
+    with ThreadPool(k) as tp:
+        outs = tp.map(common.run_model, parts)
+    res = [None] * len(lines)
+    for i, o in enumerate(outs):
+        res[i::k] = o
+    return res
 
 
 def run(tier):
@@ -503,7 +516,7 @@ def run(tier):
         if 'infra' in d:
             raise common.Infra(d['infra'])
     lines = [d['line'] for d in docs if 'line' in d]
-    model = common.run_model(lines) if (built and lines) else None
+    model = run_model_parallel(lines, nproc) if (built and lines) else None
     if model is not None and any(x == 'bad-op' for x in model):
         raise common.Infra('the model driver does not know the CTX op (Drv/C09.lean not registered in Driver.lean)')
     mi = 0
